@@ -59,6 +59,11 @@ type Conn struct {
 	// stream goes on afterwards (ascending).
 	Transients []int
 	consumed   int
+	// PeerStalled: the peer has stopped reading. Writes still succeed while fewer than SendWindow bytes are
+	// unread (socket buffers), then they block.
+	PeerStalled  bool
+	SendWindow   int
+	stalledBytes int
 	// WriteFaults by index of the client's Write call.
 	WriteFaults map[int]WriteFault
 
@@ -291,6 +296,18 @@ func (n *Net) grantWrite(t *Task) string {
 		return "closed"
 	}
 	b := snapshotNoRace(t.req.buf)
+	if c.term == TermReset {
+		// the peer reset the connection: writing fails as well
+		t.resp.err = ErrConnReset
+		return "reset"
+	}
+	if c.PeerStalled {
+		// accepted by the socket buffer, never seen by the peer
+		c.stalledBytes += len(b)
+		t.resp.n = len(b)
+		c.BytesFromClient += len(b)
+		return fmt.Sprintf("%d (buffered, peer stalled)", len(b))
+	}
 	if f, ok := c.WriteFaults[idx]; ok {
 		acc := f.Accept
 		// a failed write never reports all bytes as written
